@@ -106,6 +106,10 @@ _T3 = [('{a}[C{k}H]({b}){c}', 'aHbc'),
        ('{c}1.{a}[C{k}H]1{b}', 'aHcb'),
        ('{b}1.{c}2.[C{k}H]12{a}', 'Hbca'),
        ('{a}[C{k}]1({b})[H].{c}1', 'acbH')]
+# the centre in a later dot-separated component (water as the first component)
+_T3DOT = [('O.[C{k}H]({a})({b}){c}', 'Habc'), ('O.{a}[C{k}H]({b}){c}', 'aHbc'), ('[C{k}H]({a})({b}){c}.O', 'Habc'), ('{a}[C{k}H]({b}){c}.O', 'aHbc'),
+          ('O.[C{k}]({a})({b})({c})[H]', 'abcH'), ('O.[C{k}]([H])({a})({b}){c}', 'Habc')]
+_T4DOT = [('O.[C{k}]({a})({b})({c}){d}', 'abcd'), ('O.{a}[C{k}]({b})({c}){d}', 'abcd'), ('[C{k}]({a})({b})({c}){d}.O', 'abcd')]
 # a centre inside a real ring O1-C-C-C-[C]1 : x, y exocyclic; p = ring carbon neighbour, q = ring oxygen neighbour
 _R4 = [('{x}[C{k}]1({y})CCCO1', 'xqyp'), ('{x}[C{k}]1({y})OCCC1', 'xpyq'), ('[C{k}]1({x})({y})CCCO1', 'qxyp'),
        ('[C{k}]1({x})({y})OCCC1', 'pxyq'), ('C1CCO[C{k}]1({x}){y}', 'qpxy'), ('O1CCC[C{k}]1({x}){y}', 'pqxy'),
@@ -124,10 +128,14 @@ def tetra_spellings():
             sub = dict(zip('abcd', p))
             for tpl, order in _T4:
                 yield tpl.format(k=k, **sub), 'T4', tpl, int(at ^ parity([sub[c] for c in order], ('F', 'Cl', 'Br', 'I')))
+            for tpl, order in _T4DOT:
+                yield tpl.format(k=k, **sub), 'T4dot', tpl, int(at ^ parity([sub[c] for c in order], ('F', 'Cl', 'Br', 'I')))
         for p in itertools.permutations(('F', 'Cl', 'Br')):
             sub = dict(zip('abc', p), H='H')
             for tpl, order in _T3:
                 yield tpl.format(k=k, **sub), 'T3', tpl, int(at ^ parity([sub[c] for c in order], ('F', 'Cl', 'Br', 'H')))
+            for tpl, order in _T3DOT:
+                yield tpl.format(k=k, **sub), 'T3dot', tpl, int(at ^ parity([sub[c] for c in order], ('F', 'Cl', 'Br', 'H')))
         for p in itertools.permutations(('N', 'F')):
             sub = dict(zip('xy', p), p='p', q='q')
             for tpl, order in _R4:
@@ -150,7 +158,8 @@ def ct_spellings():
     """yield (text, family, form, cls): cls True = reference substituents (first of each end) on the same side, False = opposite,
     None = configuration not specified.  Spellings whose marks contradict each other are not generated.  Every form of one end
     (substituent before the atom, in a branch, behind a ring-closure digit opened/closed on either atom) is combined with the
-    plain forms of the other end (the two ends are read independently, so the full cross product adds nothing)."""
+    plain forms of the other end (the two ends are read independently, so the full cross product adds nothing).
+    form names the ring-closure end when there is one (the plain partner end is irrelevant to how that end is read)."""
     D = ('', '/', '\\')
     for na in (1, 2):
         for nb in (1, 2):
@@ -197,7 +206,7 @@ def ct_spellings():
                     if sb == 'bad':
                         continue
                     cls = None if sa is None or sb is None else sa == sb
-                    yield f'{lp}{rp}{lt}={rt}{ls}{rs}', fam, f'{lf} = {rf}', cls
+                    yield f'{lp}{rp}{lt}={rt}{ls}{rs}', fam, (f'{lf} =' if not lplain else f'= {rf}' if not rplain else f'{lf} = {rf}'), cls
 
 
 def _end_side(sides, subs):
